@@ -462,6 +462,11 @@ def run(ctx):
     f = ctx.facts("default")
     for rid, fn in (("R1", rule_R1), ("R2", rule_R2), ("R3", rule_R3), ("R4", rule_R4), ("R5", rule_R5)):
         ctx.run_rule(rid, fn, f)
+    # the registry's common labels join the sample's own labels when it is gathered: pairwise distinct names reach the sample only if every common pair is appended
+    # to every sample exactly ONCE (shared with C07.R5; the names themselves cannot clash: R4/R5 and Registry::register's clash test)
+    from . import C06, C07
+    ctx.rule("R6", "gather appends the registry's common label pairs to the labels of every sample exactly once (shared with C07.R5 `labels|*`)")
+    ctx.run_rule("R6", lambda c: C06._as(c, "R6", lambda s_: C07.rule_R5(s_, f), keep=lambda k: "|labels|" in k))
     if ctx.tier == "thorough":
         g = ctx.facts("plain")
         ctx.run_rule("R1@plain", lambda c: rule_R1(c, g))
